@@ -29,11 +29,11 @@ type c13Spec struct {
 	Side       string   `json:"side"` // client | server
 	IntervalMs int      `json:"interval_ms"`
 	Threshold  int      `json:"threshold"`
-	Pattern    []string `json:"pattern"`             // per ping: A | L (answered late, < interval/2) | S | N | D (N with error data) | R
-	CloseAfter int      `json:"close_after"`         // the harness closes the session after this many intervals (if still open)
-	CloseErr   bool     `json:"close_err,omitempty"` // the transport's Close reports an error although it closes
-	Hand       string   `json:"hand,omitempty"`      // how the session came about: "" legacy initialize | fallback (client asked for its default version, the peer only knows initialize) | none (server: the peer never sends initialize) | discover (server: the peer opens with server/discover)
-	Pending    bool     `json:"pending,omitempty"`   // a user call that the peer never answers is outstanding (no deadline)
+	Pattern    []string `json:"pattern"`               // per ping: A | L (answered late, < interval/2) | S | N | D (N with error data) | R
+	CloseAfter int      `json:"close_after"`           // the harness closes the session after this many intervals (if still open)
+	CloseErr   bool     `json:"close_err,omitempty"`   // the transport's Close reports an error although it closes
+	Hand       string   `json:"hand,omitempty"`        // how the session came about: "" legacy initialize | fallback (client asked for its default version, the peer only knows initialize) | none (server: the peer never sends initialize) | discover (server: the peer opens with server/discover)
+	Pending    bool     `json:"pending,omitempty"`     // a user call that the peer never answers is outstanding (no deadline)
 	PendAnswer int      `json:"pend_answer,omitempty"` // > 0 (live peers only): the peer answers that call this many thirds of an interval after the harness called Close
 }
 
